@@ -19,10 +19,12 @@ use tokio::io::{AsyncReadExt, AsyncWriteExt};
 const S1: &str = "stop=6\n0=17-17\n1=50-50\n2=60-60,c,70-70\n3=80-80\n4=90-90,c,40-40\n5=33-33";
 const S2: &str = "stop=5\n0=9-9\n1=44-44,c,55-55\n2=66-66\n3=77-77\n4=88-88";
 const BAD: &str = "this is not a padding scheme";
+// a client scheme whose stop is reached after two packets (used in the shape children only)
+const S0: &str = "stop=2\n0=11-11\n1=22-22";
 
-fn text_of(name: &str) -> &'static str { match name { "S1" => S1, "S2" => S2, "BAD" => BAD, _ => DEFAULT_PADDING_SCHEME } }
+fn text_of(name: &str) -> &'static str { match name { "S0" => S0, "S1" => S1, "S2" => S2, "BAD" => BAD, _ => DEFAULT_PADDING_SCHEME } }
 fn md5_of(text: &str) -> String { format!("{:x}", md5::compute(text.as_bytes())) }
-fn name_of_md5(m: &str) -> &'static str { for n in ["D", "S1", "S2"] { if md5_of(text_of(n)) == m { return n; } } "other" }
+fn name_of_md5(m: &str) -> &'static str { for n in ["D", "S0", "S1", "S2"] { if md5_of(text_of(n)) == m { return n; } } "other" }
 
 /// abstract scheme consts for Trace_Padding (all sizes fixed a-a)
 fn consts_of(name: &str) -> Value {
@@ -143,6 +145,8 @@ async fn child_shape(touch: bool, client: &str, servers: Vec<String>, seed: u64)
     let mut r = Rng::new(seed);
     let mut scenarios = Vec::new();
     for s in servers.iter().filter(|s| s.as_str() != "D") {
+        // a client configured with its own scheme: S1, or a scheme whose stop is already reached when the push arrives
+        let client = if client == "S1" && r.chance(1, 2) { "S0" } else { client };
         let factory = configured(touch, client);
         // with "touch" the session starts from the process default, which an earlier push may have replaced
         let start = name_of_md5(factory.md5());
@@ -157,8 +161,11 @@ async fn child_shape(touch: bool, client: &str, servers: Vec<String>, seed: u64)
         call!("open_stream", vec![json!([1, sid_cells(1), 0])], match rg.sess.open_stream().await { Ok((_s, rx)) => { std::mem::forget(rx); true } Err(_) => false });
         call!("disable_buffering", Vec::<Value>::new(), { rg.sess.disable_buffering(); true });
         let mut data = |subm: &mut Vec<Sub>, r: &mut Rng| -> (Vec<u8>, usize) { let l = r.range(0, 120) as usize; let d: Vec<u8> = (0..l).map(|_| r.next() as u8).collect(); subm.push(Sub { cmd: 2, data: d.clone(), any: false }); (d, l) };
-        let (d, l) = data(&mut subm, &mut r);
-        call!("write_data", vec![json!([2, sid_cells(1), l])], rg.sess.write_data_frame(1, bytes::Bytes::from(d)).await.is_ok());
+        // one to three packets before the push (with S0 the client is past its own stop by then)
+        for _ in 0..r.range(1, 3) {
+            let (d, l) = data(&mut subm, &mut r);
+            call!("write_data", vec![json!([2, sid_cells(1), l])], rg.sess.write_data_frame(1, bytes::Bytes::from(d)).await.is_ok());
+        }
         // the server pushes its scheme; the reference: a parseable scheme is in force from the next packet on
         rg.inp.push(&frame_bytes(6, 0, text_of(s).as_bytes()));
         quiesce().await;
